@@ -11701,58 +11701,10 @@ func promoteIntToFloat(v ir.LiteralValue) ir.LiteralValue {
 // rounding to the nearest representable f16 value. This ensures f16 arithmetic
 // uses the correct precision, matching Rust naga's half-precision evaluation.
 func roundToF16(v float32) float32 {
-	bits := math.Float32bits(v)
-	sign := bits >> 31
-	exp := int((bits>>23)&0xFF) - 127
-	mant := bits & 0x7FFFFF
-
-	// Handle special cases
-	if exp == 128 { // inf/nan
-		if mant != 0 {
-			return float32(math.NaN())
-		}
-		if sign != 0 {
-			return float32(math.Inf(-1))
-		}
-		return float32(math.Inf(1))
-	}
-
-	// Subnormal or zero
-	if exp < -24 {
-		// Too small for f16
-		if sign != 0 {
-			return -0.0
-		}
-		return 0.0
-	}
-
-	// Overflow
-	if exp > 15 {
-		if sign != 0 {
-			return float32(math.Inf(-1))
-		}
-		return float32(math.Inf(1))
-	}
-
-	// Normal range: round mantissa from 23 bits to 10 bits
-	// Add rounding bias (round to nearest even)
-	roundBit := uint32(1 << 12) // bit 12 is the rounding position
-	mant += roundBit
-	if mant >= 0x800000 { // mantissa overflow → increment exponent
-		mant = 0
-		exp++
-		if exp > 15 {
-			if sign != 0 {
-				return float32(math.Inf(-1))
-			}
-			return float32(math.Inf(1))
-		}
-	}
-	mant &= 0x7FE000 // keep only top 10 bits of mantissa
-
-	// Reconstruct f32
-	result := (sign << 31) | (uint32(exp+127) << 23) | mant
-	return math.Float32frombits(result)
+	// Encode to binary16 with round-to-nearest-even and decode again: the result
+	// is exactly the f16 value nearest to v (including subnormals, signed zero,
+	// overflow to infinity and NaN).
+	return halfToFloat32(float32ToHalf(v))
 }
 
 func (l *Lowerer) foldMin(a, b ir.LiteralValue) (ir.ExpressionHandle, bool) {
